@@ -23,6 +23,7 @@ EXPLANATION = (
     "TopicAndPartition built from it); closing of clients carries the must-hold fact `remove`; each except arm "
     "naming a stale-routing class contains the matching reset before its re-raise."
 )
+SHARED = [('C10', ['R5'], 'after an outage the broker client reconnects, so producing resumes')]
 ASSUMPTIONS = ["a metadata response lists every partition of each topic it covers"]
 KC = "client:KafkaClient"
 CACHES = ("topic_partitions", "topics_to_brokers", "topic_errors", "partition_meta")
